@@ -80,6 +80,7 @@ type Exec struct {
 	lemma         *gcl.Lemma
 	trustedUsed   map[string]bool
 	heapHoldsRefs map[string]bool
+	SplitFrames   bool // debugging: one frame obligation per heap instead of one per path
 }
 
 // TrustedUsed lists the assumed (trusted) contracts and library models this function's obligations relied on.
@@ -139,6 +140,7 @@ type State struct {
 	trace     []string
 	refs      []smt.T
 	refsMaybe []maybeRef
+	callRes   map[ssa.CallInstruction][]smt.T // results of the calls executed on this path (latest execution)
 }
 
 func (s *State) clone() *State {
@@ -154,6 +156,12 @@ func (s *State) clone() *State {
 	n.trace = append([]string(nil), s.trace...)
 	n.refs = append([]smt.T(nil), s.refs...)
 	n.refsMaybe = append([]maybeRef(nil), s.refsMaybe...)
+	if s.callRes != nil {
+		n.callRes = make(map[ssa.CallInstruction][]smt.T, len(s.callRes))
+		for k, v := range s.callRes {
+			n.callRes[k] = v
+		}
+	}
 	return n
 }
 
@@ -629,6 +637,14 @@ func (x *Exec) havocLoop(fr *frame, st *State, li *load.LoopInfo) *State {
 	} else {
 		for h := range heaps {
 			x.havocHeap(st, h)
+		}
+	}
+	// results of calls inside the loop body are those of an unknown earlier iteration: forget them
+	for b := range li.Body {
+		for _, in := range b.Instrs {
+			if ci, ok := in.(ssa.CallInstruction); ok {
+				delete(st.callRes, ci)
+			}
 		}
 	}
 	return st
